@@ -55,6 +55,7 @@ DSet(set) == Ordinals(set.replicas, set.slots)
 
 Call(v, r, n, a, k) == <<v, r, n, a, k, "ok", <<>>>>
 CallS(v, r, n, a, k, strs) == <<v, r, n, a, k, "ok", strs>>
+WithResult(c, res) == <<c[1], c[2], c[3], c[4], c[5], res, c[7]>>
 PodName(set, i)      == set.name \o "-" \o ToString(i)
 ClaimName(set, c, i) == c \o "-" \o set.name \o "-" \o ToString(i)
 
@@ -96,11 +97,13 @@ SortedRevs(revs) == SetToSortSeq(SeqToSet(Listed(revs)), RevLess)
 (* adoptOrphanRevisions (stateful_set.go).                                             *)
 
 FreshOK(sn) == sn.fresh.exists /\ sn.fresh.sameUid
+FreshGet(sn) == LET c == Call("get", "statefulsets", sn.set.name, "", <<>>) IN
+                IF sn.fresh.exists THEN c ELSE WithResult(c, "NotFound")
 
 AdoptRevisions(sn) ==
   LET set     == sn.set
       orphans == SelectSeq(Listed(sn.revs), LAMBDA x : x.owner = "none")
-      get     == <<Call("get", "statefulsets", set.name, "", <<>>)>>
+      get     == <<FreshGet(sn)>>
       syncs   == [k \in 1..Len(SelectSeq(orphans, LAMBDA x : x.marker)) |->
                     Call("update", "controllerrevisions", SelectSeq(orphans, LAMBDA x : x.marker)[k].name, "labels", <<>>)]
       adopts  == [k \in 1..Len(orphans) |-> Call("patch", "controllerrevisions", orphans[k].name, "adopt", <<>>)]
@@ -129,7 +132,7 @@ ClaimPods(sn) ==
       toRel    == SelectSeq(pods, LAMBDA p : p.owner = "self" /\ ~Matches(p) /\ ~set.deleting)
       toAdopt  == SelectSeq(pods, LAMBDA p : p.owner = "none" /\ ~set.deleting /\ Matches(p) /\ ~p.term)
       canAdopt == FreshOK(sn) /\ ~sn.fresh.deleting
-      get      == IF Len(toAdopt) > 0 THEN <<Call("get", "statefulsets", set.name, "", <<>>)>> ELSE <<>>
+      get      == IF Len(toAdopt) > 0 THEN <<FreshGet(sn)>> ELSE <<>>
       rel      == [k \in 1..Len(toRel) |-> Call("patch", "pods", toRel[k].name, "release", <<>>)]
       adopt    == IF canAdopt THEN [k \in 1..Len(toAdopt) |-> Call("patch", "pods", toAdopt[k].name, "adopt", <<>>)]
                   ELSE <<>>
@@ -152,10 +155,11 @@ CreateLoop(set, allrevs, num, c, acc) ==
       cr    == Call("create", "controllerrevisions", nm, set.tmpl, <<num>>)
   IN IF clash = {} THEN [calls |-> Append(acc, cr), name |-> nm, coll |-> c, created |-> TRUE]
      ELSE LET x == CHOOSE y \in clash : TRUE
-              gt == Call("get", "controllerrevisions", nm, "", <<>>) IN
-          IF x.tmpl = set.tmpl THEN [calls |-> acc \o <<cr, gt>>, name |-> nm, coll |-> c, created |-> FALSE]
-          ELSE IF c >= 8 THEN [calls |-> acc \o <<cr, gt>>, name |-> nm, coll |-> c, created |-> FALSE]  \* bound for TLC only
-          ELSE CreateLoop(set, allrevs, num, c + 1, acc \o <<cr, gt>>)
+              gt == Call("get", "controllerrevisions", nm, "", <<>>)
+              ae == WithResult(cr, "AlreadyExists") IN
+          IF x.tmpl = set.tmpl THEN [calls |-> acc \o <<ae, gt>>, name |-> nm, coll |-> c, created |-> FALSE]
+          ELSE IF c >= 8 THEN [calls |-> acc \o <<ae, gt>>, name |-> nm, coll |-> c, created |-> FALSE]  \* bound for TLC only
+          ELSE CreateLoop(set, allrevs, num, c + 1, acc \o <<ae, gt>>)
 
 Revisions(set, allrevs) ==
   LET sorted == SortedRevs(allrevs)
@@ -194,7 +198,10 @@ ClaimCalls(sn, i) ==
   LET missing == SelectSeq(sn.set.claims, LAMBDA c : ClaimName(sn.set, c, i) \notin sn.pvcs) IN
   [k \in 1..Len(missing) |-> CallS("create", "persistentvolumeclaims", ClaimName(sn.set, missing[k], i), "", <<>>, <<"claim-ok">>)]
 
-CreatePodCalls(sn, p) == ClaimCalls(sn, p.ord) \o <<CallS("create", "pods", p.name, p.rev, <<p.ord, 1>>, <<"tmpl-ok">>)>>
+Squatted(sn, n) == \E q \in SeqToSet(sn.pods) : q.name = n      \* only asked for names the set does not hold itself
+CreatePodCalls(sn, p, squat) ==
+  LET c == CallS("create", "pods", p.name, p.rev, <<p.ord, 1>>, <<"tmpl-ok">>) IN
+  ClaimCalls(sn, p.ord) \o <<IF squat THEN WithResult(c, "AlreadyExists") ELSE c>>
 UpdatePodCalls(sn, p) == (IF p.storOK THEN <<>> ELSE ClaimCalls(sn, p.ord)) \o <<Call("update", "pods", p.name, "", <<>>)>>
 
 \* census over the claimed pods
@@ -228,8 +235,11 @@ ReplicaLoop(sn, claimed, cur, upd, i, bound, acc) ==
         p    == IF dead THEN NewPod(set, i, CreateRev(set, cur, upd, i)) ELSE p0
         a2   == [a1 EXCEPT !.reps = (i :> p) @@ @]
     IN
-    IF IsNew(p) THEN
-        LET a3 == [a2 EXCEPT !.calls = @ \o CreatePodCalls(sn, p),
+    IF IsNew(p) /\ ~dead /\ Squatted(sn, p.name) THEN
+        \* the name is taken by a pod the set does not own: the create fails and the reconcile returns the error
+        [a2 EXCEPT !.calls = @ \o CreatePodCalls(sn, p, TRUE), !.stop = TRUE, !.fail = TRUE]
+    ELSE IF IsNew(p) THEN
+        LET a3 == [a2 EXCEPT !.calls = @ \o CreatePodCalls(sn, p, FALSE),
                              !.st = [@ EXCEPT !.replicas = @ + 1,
                                               !.current  = IF p.rev = cur THEN @ + 1 ELSE @,
                                               !.updated  = IF p.rev = upd THEN @ + 1 ELSE @]] IN
@@ -303,7 +313,7 @@ UpdateSet(sn, claimed, revs) ==
       ls    == LoopSlots(set.replicas, set.slots, {})
       bound == ls[1]
       dset  == (0 .. (bound - 1)) \ ls[2]
-      a0    == [calls |-> <<>>, st |-> Census(claimed, cur, upd), stop |-> FALSE,
+      a0    == [calls |-> <<>>, st |-> Census(claimed, cur, upd), stop |-> FALSE, fail |-> FALSE,
                 reps |-> [i \in {} |-> 0]]
       \* the replicas slice holds a pod (existing or to be created) for every desired ordinal
       reps0 == [i \in dset |-> IF Present(claimed, i) THEN PodAt(claimed, i)
@@ -314,10 +324,18 @@ UpdateSet(sn, claimed, revs) ==
                ELSE CondemnedLoop(sn, CondemnedSet(sn, claimed), FirstUnhealthy(sn, claimed, reps0), cur, upd, a1)
       a3    == IF a2.stop \/ set.strat = "OnDelete" THEN a2 ELSE UpdateLoop(sn, cur, upd, bound - 1, a2)
       fs    == FinalStatus(set, a3.st, cur, upd, rv.coll)
-      stc   == IF Inconsistent(set, fs) THEN <<StatusCall(set, fs)>> ELSE <<>>
-      tr    == Truncate(set, claimed, rv.sorted, cur, upd)
-  IN [calls |-> rv.calls \o a3.calls \o stc \o tr, res |-> "ok", status |-> fs, cur |-> cur, upd |-> upd,
-      podcalls |-> a3.calls, wrote |-> stc # <<>>]
+      \* UpdateStatus carries the cached object's resourceVersion and UID: if the stored object is gone the write
+      \* fails NotFound; if it moved on (or was re-created) it fails Conflict and RetryOnConflict (5 steps) re-reads
+      \* the same stale cache, so all 5 attempts fail and the reconcile returns the error.
+      sc    == StatusCall(set, fs)
+      stc   == IF ~Inconsistent(set, fs) THEN <<>>
+               ELSE IF ~sn.fresh.exists THEN <<WithResult(sc, "NotFound")>>
+               ELSE IF ~sn.fresh.sameUid \/ ~sn.fresh.rvSame THEN [k \in 1..5 |-> WithResult(sc, "Conflict")]
+               ELSE <<sc>>
+      stOK  == stc = <<>> \/ stc = <<sc>>
+      tr    == IF stOK THEN Truncate(set, claimed, rv.sorted, cur, upd) ELSE <<>>
+  IN IF a3.fail THEN [calls |-> rv.calls \o a3.calls, res |-> "err"]
+     ELSE [calls |-> rv.calls \o a3.calls \o stc \o tr, res |-> IF stOK THEN "ok" ELSE "err"]
 
 ---------------------------------------------------------------------------------------
 (* sync                                                                                *)
